@@ -227,6 +227,14 @@ func main() {
 		}
 		return
 	}
+	// the stub under everything: the simulated file system, compared operation by operation with the real one
+	stubSeqs := 400
+	if *tier == "thorough" {
+		stubSeqs = 20000
+	}
+	stubOps, stubBad := sim.StubCheck(int64(*seedF), stubSeqs, 40)
+	total.Counters["stub_ops_compared"] = stubOps
+	total.Counters["stub_disagreements"] = len(stubBad)
 	writeEvidence(p, id, *tier, *seedF, n, total, bins, wall, nviol)
 	fmt.Printf("simcheck %s tier=%s seed=%d: cases=%d runs=%d nontrivial=%d schedules=%d faults_fired=%d selftest=%d/%d fidelity=%d/%d wall=%.1fs\n",
 		id, *tier, *seedF, total.Cases, total.Runs, len(total.Nontrivial), len(total.Schedules), sum(total.FaultsFired),
@@ -239,7 +247,10 @@ func main() {
 	if unreproducible > 0 {
 		harness += unreproducible
 	}
-	if harness > 0 || total.FidelityMism > 0 || total.SelfTestMism > 0 || total.Counters["rapid_harness_failure"] > 0 {
+	for _, m := range stubBad {
+		fmt.Fprintf(os.Stderr, "simcheck: simulated file system disagrees with the real one: %s\n", m)
+	}
+	if harness > 0 || total.FidelityMism > 0 || total.SelfTestMism > 0 || total.Counters["rapid_harness_failure"] > 0 || len(stubBad) > 0 {
 		fmt.Fprintf(os.Stderr, "simcheck: harness trouble: shards_failed=%d fidelity_mismatches=%d selftest_mismatches=%d rapid=%d\n",
 			harness, total.FidelityMism, total.SelfTestMism, total.Counters["rapid_harness_failure"])
 		for _, m := range total.FidelityMsgs {
@@ -410,6 +421,8 @@ func writeEvidence(p sim.Property, id, tier string, seed uint64, shards int, s *
 		"determinism_selftest":          map[string]int{"runs": s.SelfTestRuns, "mismatches": s.SelfTestMism},
 		"fidelity":                      map[string]int{"worlds": s.FidelityWorlds, "mismatches": s.FidelityMism},
 		"traces_validated_against_impl": s.FidelityWorlds - s.FidelityMism,
+		"stub_validation": map[string]any{"what": "seeded random sequences of file operations (open flag combinations, read, write, seek, close, mkdir(all), remove, rename, symlink, stat, lstat, readdir, readlink, evalsymlinks, abs; paths with ., .., trailing slashes, links) applied to the simulated file system and to a real directory; every result, errno and the final trees compared",
+			"operations_compared": s.Counters["stub_ops_compared"], "disagreements": s.Counters["stub_disagreements"]},
 		"instrumenter":                  rep,
 		"components": map[string]any{
 			"real": []string{"main.go (flag parsing, write loop, exit path)", "pkg/generator", "pkg/schemas", "pkg/codegen", "pkg/yamlutils", "internal/x/text",
